@@ -151,8 +151,11 @@ def seeded_entries():
         if os.path.isfile(meta):
             with open(meta) as f:
                 m = json.load(f)
-            out.append({'id': 'seeded/' + name, 'property': m['property'],
-                        'also': m.get('also_checked', []),
+            det = m.get('detector', m['property'])
+            out.append({'id': 'seeded/' + name, 'property': det,
+                        'breaks': m['property'],
+                        'also': [x for x in m.get('also_checked', [])
+                                 if x != det],
                         'what': m.get('summary', ''),
                         'patch': os.path.join(d, 'patch.diff')})
     return out
